@@ -11,6 +11,7 @@
     _handle_initialize (what the response says for a requested version). *)
 From Verif.Base Require Import Prelude.
 From Verif.Spec Require Import C19.
+From Verif.Gen Require SessionsGen.
 Open Scope Z_scope.
 
 Section Sessions.
@@ -47,11 +48,15 @@ Section Sessions.
   Definition touch_opt (now : Z) (k : option sid) (l : list (sid * rec)) : list (sid * rec) :=
     match k with Some k => touch now k l | None => l end.
 
-  (** cleanup_expired: collect the expired ids, delete each, return how many *)
+  (** cleanup_expired: collect the expired ids, delete each, return how many.
+      The expiry test is the filter of the list comprehension AS IT STANDS IN THE
+      SOURCE (Gen/SessionsGen.v, regenerated on every run), not the specification's. *)
+  Definition expired_m (now age : Z) (r : rec) : bool :=
+    SessionsGen.expired_src now (r_last r) (r_created r) age.
   Definition expired_entries (now age : Z) (l : list (sid * rec)) : list (sid * rec) :=
-    filter (fun kv => expired now age (snd kv)) l.
+    filter (fun kv => expired_m now age (snd kv)) l.
   Definition cleanup (now age : Z) (l : list (sid * rec)) : list (sid * rec) :=
-    filter (fun kv => negb (expired now age (snd kv))) l.
+    filter (fun kv => negb (expired_m now age (snd kv))) l.
 
   Definition create (now : Z) (c : Z) (v : str) (meta : Z) (st : state) : state * sid :=
     let k := fresh (next st) in
